@@ -294,8 +294,10 @@ example : lexSlice ("-".toList ++ ">".toList) = .ok [.arrow] := by decide
 example : lexSlice ("1".toList ++ "x".toList) = .ok [.intLit ['1', 'x']] := by decide
 example : lexSlice ("///d".toList ++ "x".toList) = .ok [.doc ['d', 'x']] := by decide
 example : lexSlice "// a\r x: bool\ny".toList = .ok [.ident ['y']] := by decide
-/-- what the printer's `afterDoc` rule avoids: directly after a doc line, CR LF leaves the CR inside the comment text -/
-example : lexSlice "/// d\r\nx".toList = .ok [.doc [' ', 'd', '\r'], .ident ['x']] := by decide
+/-- with CR LF line ends the CR is not part of a doc line (since the repair of D-16c; before, `/// d\r\n` carried `" d\r"`);
+    a CR in the middle of the line stays -/
+example : lexSlice "/// d\r\nx".toList = .ok [.doc [' ', 'd'], .ident ['x']] := by decide
+example : lexSlice "/// d\re\r\nx".toList = .ok [.doc [' ', 'd', '\r', 'e'], .ident ['x']] := by decide
 example : (lexRun false "[a\n// ]\n struct]struct".toList).items =
     [.tok .lbracket, .tok (.ident ['a']), .tok (.ident "struct".toList), .tok .rbracket, .tok (.kw "StructKeyword")] := by decide
 
